@@ -110,7 +110,7 @@ def ref_matrix(n, method, mode):
 def lib_matrix_1d(n, method, mode, pad_const, dx, dtype, use_out):
     def call(f):
         if use_out:
-            out = np.full(n, np.nan, dtype=dtype)
+            out = np.full(n, complex(np.nan, np.nan) if np.dtype(dtype).kind == 'c' else np.nan, dtype=dtype)
             r = diff_ops.finite_diff(f, 0, dx=dx, method=method, pad_mode=mode, pad_const=pad_const, out=out)
             return r, (r is out)
         return diff_ops.finite_diff(f, 0, dx=dx, method=method, pad_mode=mode, pad_const=pad_const), True
@@ -199,7 +199,7 @@ def run_fd_nd(ctx):
                     ctx.case('fdnd;%s;%s;%s;%dd' % (method, mode, sizeclass(n), len(shape)), (shape, axis, order))
                     ctx.ev('fd-nd')
                     try:
-                        out = np.full(shape, np.nan, dtype=f.dtype, order=order)
+                        out = np.full(shape, complex(np.nan, np.nan) if f.dtype.kind == 'c' else np.nan, dtype=f.dtype, order=order)
                         r = diff_ops.finite_diff(f, axis, dx=dx, method=method, pad_mode=mode, pad_const=pad_const, out=out)
                         r2 = diff_ops.finite_diff(f, axis, dx=dx, method=method, pad_mode=mode, pad_const=pad_const)
                     except Exception as e:
